@@ -8,6 +8,9 @@ CHECKS = {
  "C16": ("translation_validation", "property-based testing of flatten(): generated hierarchies validated against the reference interpreter's flat circuit (isomorphism), plus adversarial ':' names",
          "For generated hierarchies (leaves at every level, shared sub-modules, buses, pass-through ports, port-less sub-modules) flatten(m) must return only primitive / external instances, one per leaf device, with m's ports unchanged, and its package must be isomorphic to the reference interpreter's circuit of m; designs flatten may refuse (slices, concats, ':' in names) must raise or be right.",
          "Trusts the reference interpreter and package reader; sampled; the flatten-must-succeed class is decided from the elaborated hierarchy (all connections whole signals, no ':' in names)."),
+ "C19": ("exploration", "exhaustive enumeration of (n, unit cell, ordered series pair, call form) for Series / MosStack / Wrapper; oracle = documented chain evaluated by the reference interpreter, compared up to isomorphism",
+         "Every n up to N, every unit cell of the family (primitives with 2-4 ports, external modules, modules with bus, bundle and oddly ordered ports), every ordered pair of distinct scalar ports given by name, by Signal or mixed, MosStack with default and given units and Wrapper of every unit are generated and exported; the package must be isomorphic to the documented chain / wrapper topology written as a spec; nser < 1 must raise.",
+         "Complete for the stated bounds (N=6 quick, 12 thorough); identical unit instances make the comparison rely on the isomorphism search."),
  "C01": ("translation_validation", "property-based testing: Hypothesis-generated design programs, each validated against a reference interpreter (differential oracle, isomorphism of flat circuits)",
          "Each generated design program is built and exported by Hdl21 in a pristine process and its package, read with the netlisters' bit order, is compared up to isomorphism with an independent reference interpreter's flat circuit (devices, net partition over terminal and port bits, no-connect isolation).",
          "Trusts the reference interpreter (vlib/model.py), vlsir/protobuf and the vlsirtools bit-order convention; sampled program space with measured feature histogram; rejections are counted, not failures."),
